@@ -40,6 +40,17 @@ CLAIMED = {
             "Trusted: T-arrow Kleene/is_in/is_valid semantics and Table.filter (assumed, sampled by replay scripts), str.lower as an "
             "uninterpreted function shared by code and specification, dict iteration order.",
             "DESIGN.md 4/C12"),
+    "C10": ("Proof that _parse_hint_content is total over all byte strings and returns only names in the metadata-file language; "
+            "that _read_version_hint/_current_version_info never raise because of pointer content and return the hinted version "
+            "iff it parses and its target exists, else the recovery result; that _recover_version_from_files returns the highest "
+            "version among metadata files directly in metadata/ (witness proof, unbounded listing) and None on listing failure; that "
+            "initialize_table refuses any resolvable/recoverable table without writing, checks inside the lock, writes the metadata "
+            "file before the pointer, uses create-if-absent on CAS backends and always releases the lock. RECOVER-COMMITTED "
+            "(recovery never surfaces an uncommitted version) is refuted on this tree and carried as a known finding.",
+            "Trusted: T-py string/int/regex theories (character classes from the running interpreter), T-store and T-lock action "
+            "contracts, rule ALL-VISITED for completed for-loops. Bounded stand-in (not counted as proved): version(name)==v on an "
+            "enumerated pointer grammar. Table.__init__/create_table/load_table level obligations are under C18.",
+            "DESIGN.md 4/C10"),
 }
 
 NA_REASON = {
